@@ -99,6 +99,87 @@ def task_get_source_field():
     return col.pack()
 
 
+# ------------------------------------------------------------------ Tx*.get_field: the method form of get_source_field
+def task_source_get_field():
+    """electrodes.Source.get_field(grid, frequency) -- the form in which simulations obtain source fields: for every source class, with and without
+    frequency, the field handed back is the vector of THIS source on THIS grid times its strength times -s mu0 (no factor without frequency),
+    whatever an earlier call on the same source object left behind (see cxutil.explore_with_history)."""
+    from .cxutil import explore_with_history, UNRECOGNISED
+    from .c0910 import bind_call
+    col = ob.Collector(PROP, 'electrodes.Source.get_field')
+    col.default_replay = lambda d: ob.guarded(__import__('contracts.c0910_concrete', fromlist=['x']).check_source_get_field, 0)
+    col.function('electrodes.Source.get_field')
+    S, SMU = z3.Real('strength'), z3.Real('smu0')
+    res = []
+    for kind, bases in TX_BASES.items():
+        for has_freq in (True, False):
+            def mk(ctx, left=(), kind=kind, bases=bases, has_freq=has_freq):
+                log = []
+                src = cx.Obj(kind, dict(coordinates=cx.Opaque('coordinates'), points=cx.Opaque('points'), strength=S, __bases__=bases), mod='electrodes')
+                grid = cx.Obj('TensorMesh', {})
+                fr = z3.Real('frequency') if has_freq else None
+                for who, attr, value in left:
+                    dict(src=src, grid=grid)[who].fields[attr] = value
+
+                def gsf(it, args, kw, node):
+                    f = cx.Obj('Field', dict(smu0=SMU), mod='fields')
+                    b = bind_call('fields.get_source_field', list(args), dict(kw))
+                    st = cx.Store('source-field', VEC * S * (-SMU) if b.get('frequency') is not None else VEC * S)
+                    f.fields['_field'] = f.fields['field'] = cx.NDArr(st)
+                    log.append(('get_source_field', b, f))
+                    return f
+
+                def vecfn(name):
+                    def f(it, args, kw, node):
+                        log.append((name, list(args), dict(kw)))
+                        v = vec_field('vfield')
+                        v.fields['grid'] = args[0]
+                        return v
+                    return f
+
+                def field(it, args, kw, node):
+                    b = bind_call('fields.Field', list(args), dict(kw))
+                    data = b.get('data')
+                    f = cx.Obj('Field', dict(smu0=SMU, grid=b.get('grid')), mod='fields')
+                    if isinstance(data, cx.NDArr):
+                        # np.asarray(data, dtype): the SAME storage if the dtype already matches (real data and no or a Laplace frequency), else a copy
+                        if b.get('frequency') is None or it.ctx.branch(it.ctx.fresh_bool('dtype_of_data_matches'), 'asarray'):
+                            st = data.store
+                        else:
+                            st = cx.Store('converted-copy', data.store.val)
+                    else:
+                        st = cx.Store('fresh-field', z3.RealVal(0))
+                    f.fields['_field'] = f.fields['field'] = cx.NDArr(st)
+                    return f
+                ctx.summaries.update({'fields.get_source_field': gsf, 'fields._point_vector': vecfn('point'), 'fields._point_vector_magnetic': vecfn('point_magnetic'),
+                                      'fields._dipole_vector': vecfn('dipole'), 'fields.Field': field})
+                return [grid, fr], {}, dict(__self__=src, src=src, grid=grid, log=log, kind=kind, freq=fr)
+            a, b = explore_with_history('electrodes.Source.get_field', mk, lambda st: dict(src=st['src'], grid=st['grid']))
+            res += a + b
+    clause(col, 'returns_normally', res, lambda r: r.outcome == 'return')
+
+    def moment(r):
+        if r.outcome != 'return':
+            return None
+        calls = [x for x in r.state['log'] if x[0] == 'get_source_field']
+        for _, b, f in calls:
+            if b.get('grid') is not r.state['grid'] or b.get('source') is not r.state['src'] or b.get('frequency') is not r.state['freq'] \
+                    or any(v is not None for k, v in b.items() if k not in ('grid', 'source', 'frequency', '**')) or b.get('**'):
+                return False
+        v = r.value
+        if not isinstance(v, cx.Obj) or not isinstance(v.fields.get('_field'), cx.NDArr):
+            return UNRECOGNISED('what get_field returns is not a field object')
+        val = v.fields['_field'].store.val
+        if val is None:
+            return False
+        return val == (VEC * S * (-SMU) if r.state['freq'] is not None else VEC * S)
+    clause(col, 'field_is_the_vector_of_this_source_on_this_grid_times_strength_times_minus_s_mu0__no_factor_without_frequency__whatever_an_earlier_call_left_behind',
+           res, moment, sample=True)
+    canary(col, 'canary/frequency_free_field_carries_the_factor_s_mu0', [r for r in res if r.state['freq'] is None],
+           lambda r: r.value.fields['_field'].store.val == VEC * S * (-SMU))
+    return col.pack()
+
+
 # ------------------------------------------------------------------ get_source_field, source given by its coordinates
 class Coords(cx.Ext, cx.NDArr):
     """an ndarray of source coordinates of which only the number of elements is known (a symbolic integer)"""
@@ -331,6 +412,10 @@ def task_concrete():
     col.concrete('source_sums_scaling_touched_cells_conversions_square_loop', r['reproduced'] is False, r,
                  bounded='two stretched grids (local and UTM-like coordinates), random wires with 2..8 electrodes + axis-aligned / on-node cases, 4 strength/frequency modes; 40 conversion / loop cases',
                  cases=r.get('cases', 0))
+    r = ob.guarded(c0910_concrete.check_source_get_field, seed)
+    col.concrete('Tx_get_field_on_a_source_used_before_equals_get_source_field_of_a_new_equal_source_and_carries_the_nominal_moment', r['reproduced'] is False, r,
+                 bounded='stretched 6x5x4 grid; electric dipole, 4-electrode wire, electric point, magnetic dipole, magnetic point; one object each, seven calls '
+                         '(Laplace, frequency-free, frequency domain, repeated)', cases=r.get('cases', 0))
     r = ob.guarded(c0910_concrete.check_sources_from_coordinates, seed)
     col.concrete('source_given_by_coordinates_injects_the_given_strength_times_length_along_its_direction__magnetic_loop_area_vector', r['reproduced'] is False, r,
                  bounded='stretched 6x5x4 grid; 8 positions / orientations x 4 strength-frequency modes x length given or not x electric given, True, False or not '
@@ -582,7 +667,8 @@ def task_conversions():
 
 def tasks(tier):
     return [('contracts.c0910', 'task_point_source', dict(prop='C10')), ('contracts.c0910', 'task_rotation', dict(prop='C10')),
-            ('contracts.c0910', 'task_dipole_cell', {}), ('contracts.c10', 'task_get_source_field', {}), ('contracts.c10', 'task_get_source_field_from_coordinates', {}),
+            ('contracts.c0910', 'task_dipole_cell', {}), ('contracts.c10', 'task_get_source_field', {}), ('contracts.c10', 'task_source_get_field', {}),
+            ('contracts.c10', 'task_get_source_field_from_coordinates', {}),
             ('contracts.c10', 'task_wire_branch', {}),
             ('contracts.c10', 'task_square_loop', {}), ('contracts.c10', 'task_conversions', {}), ('contracts.c10', 'task_concrete', {})]
 
